@@ -14,6 +14,10 @@ HtypOk(e) == LET d == HtypDec(e.b)  r == e.res IN
   /\ r.v = "msg"
   /\ r.ver = d.ver /\ r.be = d.be /\ r.ueh = d.ueh /\ r.weid = d.weid /\ r.wsid = d.wsid /\ r.wtms = d.wtms       \* what the layout prescribes
   /\ r.reenc = e.b                                                                                                \* decode, re-encode: same byte
+\* the same header-type byte under another declared length: IF the parser returns a message, the flags are those of the byte
+HtypLenOk(e) == LET d == HtypDec(e.b)  r == e.res IN
+  /\ r.v # "panic"
+  /\ r.v = "msg" => (r.ver = d.ver /\ r.be = d.be /\ r.ueh = d.ueh /\ r.weid = d.weid /\ r.wsid = d.wsid /\ r.wtms = d.wtms /\ r.reenc = e.b)
 MsinOk(e) == LET d == MsinDec(e.b)  r == e.res IN
   /\ r.v = "ok" /\ r.mt = d.mt                                   \* message type and sub-type the layout prescribes
   /\ r.reenc_mt + B(d.verb) = e.b                                \* u8::from(&MessageType) | verbose bit
@@ -37,7 +41,7 @@ CtlOk(e) == LET c == ControlOf(e.n) IN e.res.kind = c[1] /\ e.res.value = c[2] /
 WidthOk(e) == e.res = TypeWidth(e.t.kind, e.t.w)
 ArgCountOk(e) == e.res = ArgCount(e.p)
 LogLevelOk(e) == e.res = LogCrateLevel(e.mtin)
-Matches(e) == CASE e.op = "htyp" -> HtypOk(e) [] e.op = "msin" -> MsinOk(e) [] e.op = "ti" -> TiOk(e) [] e.op = "tipair" -> TiPairOk(e)
+Matches(e) == CASE e.op = "htyp" -> HtypOk(e) [] e.op = "htyplen" -> HtypLenOk(e) [] e.op = "msin" -> MsinOk(e) [] e.op = "ti" -> TiOk(e) [] e.op = "tipair" -> TiPairOk(e)
                 [] e.op = "svc" -> SvcOk(e) [] e.op = "ctl" -> CtlOk(e) [] e.op = "width" -> WidthOk(e) [] e.op = "argcount" -> ArgCountOk(e) [] e.op = "loglevel" -> LogLevelOk(e)
                 [] OTHER -> FALSE
 Init == l = 1 /\ bad = <<>>
